@@ -9,6 +9,7 @@ from pv.formula import Formula
 from pv.loops import enclosing_loops, loop_shape, no_early_exit
 from checks import lehmann as lh
 from checks.lehmann import fld, THIS
+from checks.c20 import fact_str
 
 MC = "Pomerol::MatsubaraContainer4"
 V4 = "Pomerol::Vertex4"
@@ -184,6 +185,50 @@ def body(chk, db, cfgname):
         r3.ok(site, op.loc(fallbacks[0][0]), "every non-table return is pSource->value(n1,n2,n3)", cfgname)
     else:
         r3.bad(site, op.loc(), "on a miss the value is not fetched as pSource->value(n1, n2, n3)", cfgname)
+
+    # ---- the fallback dereferences pSource: it must be bound whenever the vertex can be read
+    r5 = chk.rule("C15-R5", "the source pointer the fallback dereferences is bound for every window size: fill() stores it on every path, and compute() reaches fill() on every path to Status = Computed", "F1 must-pass-through", 2)
+    site = MC + "::fill:source-bound"
+    ctor_binds = False
+    for c_ in [x for x in db.fns.values() if strip_targs(x.name) == MC + "::MatsubaraContainer4" and x.params]:
+        for ini in c_.d.get("inits", []):
+            if ini.get("fq", "").endswith("::pSource") and ini.get("written") and Ctx(c_, db).key(ini["e"])[0] == "param":
+                ctor_binds = True
+    sj = stores.get(SRC, (None, None))
+    exits_ = [j for j, n in fill.walk(fill.body) if n["k"] == "return"]
+    if ctor_binds:
+        r5.ok(site, fill.loc(), "the source is bound by the container's constructor", cfgname)
+    elif sj[0] is not None and sj[1] == pS and not enclosing_loops(fill, sj[0]) and all(fill.cfg.dominates(fill.cfg.pos1(sj[0]), fill.cfg.pos1(e)) for e in exits_) \
+            and fill.cfg.dominates(fill.cfg.pos1(sj[0]), fill.cfg.pos1(Wj)):
+        r5.ok(site, fill.loc(sj[0]), "pSource = (argument) dominates every return of fill(), including the empty-window return (%d returns)" % len(exits_), cfgname)
+    elif sj[0] is not None and sj[1] == pS:
+        late = [e for e in exits_ if not fill.cfg.dominates(fill.cfg.pos1(sj[0]), fill.cfg.pos1(e))]
+        r5.bad(site, fill.loc(late[0]) if late else fill.loc(sj[0]), "fill() can return (line %s) before the source pointer is stored: a later read outside the (empty) window dereferences a null / stale pointer" % (
+            fill.loc(late[0]).rsplit(":", 1)[-1] if late else "?"), cfgname)
+    else:
+        r5.unknown(site, fill.loc(), "how the container learns its source object is not analysed", cfgname)
+    cmp_ = db.fn(V4 + "::compute", nparams=1)
+    cctx_ = Ctx(cmp_, db)
+    site = V4 + "::compute:fills-storage"
+    STG = fld(V4 + "::Storage")
+    fcalls = [j for j, n in cmp_.walk(cmp_.body) if n["k"] == "call" and n.get("ck") == "method" and strip_targs(n.get("cname") or "") == MC + "::fill" and cctx_.key(n["obj"]) == STG]
+    sets_ = [j for j, n in cmp_.walk(cmp_.body) if n["k"] == "bin" and n["op"] == "=" and cctx_.key(n["l"]) == fld("Pomerol::ComputableObject::Status")]
+    if ctor_binds:
+        r5.ok(site, cmp_.loc(), "the source is bound by the container's constructor", cfgname)
+    elif len(fcalls) == 1 and sets_:
+        fk = cctx_.key(fcalls[0])
+        argok = fk[3] == THIS and fk[4] == ("param", cmp_.params[0]["d"], cmp_.params[0]["n"])
+        dom = all(cmp_.cfg.dominates(cmp_.cfg.pos1(fcalls[0]), cmp_.cfg.pos1(e)) for e in sets_)
+        if not argok:
+            r5.bad(site, cmp_.loc(fcalls[0]), "Storage.fill is not called with (this, NumberOfMatsubaras)", cfgname)
+        elif dom:
+            r5.ok(site, cmp_.loc(fcalls[0]), "Storage.fill(this, N) is executed on every path that sets Status = Computed, for every N", cfgname)
+        else:
+            fa_ = guard_facts(cmp_, cctx_).get(cmp_.cfg.pos1(fcalls[0]), frozenset())
+            r5.bad(site, cmp_.loc(fcalls[0]), "Status becomes Computed on a path that skips Storage.fill (it is called only when %s), and only fill() tells the storage which object to fall back to: every read of such a vertex dereferences a null pointer" % (
+                " and ".join(sorted(fact_str(x) for x in fa_)) or "a condition holds"), cfgname)
+    else:
+        r5.unknown(site, cmp_.loc(), "compute() does not fill the storage by one call of Storage.fill (form not analysed)", cfgname)
 
     r4 = chk.rule("C15-R4", "vertex == chi + [n1=n3] beta G13(n1) G24(n2) - [n2=n3] beta G14(n1) G23(n2); operator() reads the storage filled from value()", "F6 formula", 3)
     v = db.fn(V4 + "::value", nparams=3)
